@@ -213,4 +213,19 @@ def run(tier, seed, replay):
                     break
         rep.cov["wrap_runs"] = dict(scripts=len(wrap_scripts), steps=len(allw), rule="real server + client across the 2^32 wrap of ServerTick, lock-step delivery, tracking enabled")
         rep.cov["evaluations"] = rep.cov.get("evaluations", 0) + len(wrap_scripts)
+    # whole apps, ordinary ticks: entities collect confirmations from update messages (insertions, removals) AND mutate messages
+    # delivered late, out of order or not at all; after every client frame the per-entity history must still contain every tick
+    # it reported before (inside its window), MutateTickReceived fires at most once per tick
+    import simcheck
+    kws = [dict(track=True, weights=dict(sop=8.0, sframe=4.0)), dict(track=True, max_size=1, burst=0.1), dict(track=True, nclients=2, weights=dict(sop=7.0)), dict(track=False, weights=dict(sop=8.0, sframe=4.0))]
+    o2, d2 = simcheck.sim_collect(rep, "C12", tier, rng, seed, kws, 80, 8000, oracle_props={"C12"},
+                                  rule_extra=", per-entity confirm histories compared frame by frame (a confirmed tick stays confirmed inside the window)")
+    if o2 and not oracle_fail:
+        f = o2[0]
+        rep.violation("oracle", dict(what="implementation violates C12 on a concrete script", problem=f["problem"], script=f.get("shrunk", f["script"])), True)
+        return rep.finish()
+    if d2 and not (oracle_fail or diverged):
+        f = d2[0]
+        rep.violation("correspondence", dict(what="Layer 1 model and implementation disagree", first_divergence=f.get("shrunk_divergence", f["divergence"]), script=f.get("shrunk", f["script"])), False)
+        return rep.finish()
     return conclude(rep, proofs_ok, oracle_fail, diverged, "RV.Tick.{RepliconTick,ConfirmHistory,MutateTicks}")
